@@ -249,6 +249,7 @@ Act(e) ==
     [] e.ev = "W"              -> Write(e)
     [] e.ev = "S"              -> Sync(e)
     [] e.ev = "Recovered"      -> Recovered(e)
+    [] e.ev = "RecoverFailed"  -> ("C01" \notin Props /\ "C08" \notin Props) /\ UNCHANGED <<coreVars, begin>>
     [] e.ev = "Reopen"         -> Reopen(e)
     [] e.ev = "Note"           -> Note(e)
     [] OTHER                   -> FALSE
